@@ -374,6 +374,61 @@ def r11d(ctx):
                'options are not applied to every leaf layer', where(fn))
 
 
+def r11f(ctx):
+    """Layer-level NAS parameter generators yield nn.Parameters only: each yielded tensor is
+    either enumerated through the parameter registry of a sub-module (named_parameters /
+    parameters / a nested named_nas_parameters) or is an attribute that is an nn.Parameter in
+    EVERY class the holder can be (a masker frozen by construction keeps the same attribute as
+    a buffer: yielding it by attribute access hands a non-parameter to train_nas_only and to
+    the optimiser)."""
+    from ..util import attr_classes
+    repo = ctx.repo
+    n = 0
+    wr = {w.qualname for w in wrappers(ctx)}
+    for ci in sorted(repo.classes.values(), key=lambda c: c.qualname):
+        if not ci.module.name.startswith('plinio.methods') or ci.qualname in wr:
+            continue
+        f = ci.methods.get('named_nas_parameters')
+        if f is None:
+            continue
+        seen = set()
+        for p in paths(repo, f):
+            for y in [e for e in p.events if e.kind == 'yield']:
+                v = _second(y.data[0])
+                if v in seen or v == NONE:
+                    continue        # ("", None): placeholder of layers without masks
+                seen.add(v)
+                n += 1
+                via_registry = mentions(v, lambda x: x[0] == 'elem' and method_call(x[1]) and
+                                        method_call(x[1])[1] in ('named_parameters', 'parameters',
+                                                                 'named_nas_parameters',
+                                                                 'nas_parameters'))
+                ok, msg = via_registry, 'enumerated through the parameter registry'
+                if not via_registry:
+                    holders: List[ClassInfo] = []
+                    attr = None
+                    if v[0] == 'attr' and v[1] == SELF:
+                        attr, holders = v[2], repo.subclasses(ci)
+                    elif v[0] == 'attr' and v[1][0] == 'attr' and v[1][1] == SELF:
+                        attr = v[2]
+                        for c in attr_classes(repo, ci, v[1][2]):
+                            holders += [x for x in repo.subclasses(c) if x not in holders]
+                    if attr is None or not holders:
+                        ok, msg = False, f'{short(v, 60)} is not recognisably an nn.Parameter'
+                    else:
+                        bad = [c.name for c in holders
+                               if storage_kinds(repo, c).get(attr) != 'param']
+                        ok = not bad
+                        msg = (f'{attr} is an nn.Parameter in {[c.name for c in holders]}' if ok else
+                               f'{short(v, 60)} is yielded as a NAS parameter but {attr} is not an '
+                               f'nn.Parameter in {bad} (a masker frozen by construction keeps it '
+                               f'as a buffer): NAS parameters are then not a subset of '
+                               f'parameters(), and train_nas_only makes the frozen mask trainable')
+                ctx.ob('R11f', f'{ci.name}.named_nas_parameters yields {short(v, 50)}', ok, msg,
+                       where(f, y.node))
+    ctx.floor('R11f', 'layer-level NAS parameter yields', n, 10)
+
+
 def r11e(ctx):
     """The sampler installed by update_softmax_options is the one its stored options name:
     disable_sampling -> no sampling (whatever gumbel says), else gumbel -> Gumbel sampler, else
@@ -428,6 +483,7 @@ def run(ctx):
     r11c(ctx)
     r11d(ctx)
     r11e(ctx)
+    r11f(ctx)
     ctx.assume('torch: a set of tensors compares by identity (Tensor.__hash__ is id-based); '
                'buffers are never returned by named_parameters()')
     ctx.assume('each control is a single call whose effect is a function of its arguments only '
